@@ -78,7 +78,7 @@ def generate(rng, tier):
         n, m = rng.randrange(0, 6), rng.randrange(1, 6)
         dy = rng.random() < 0.3
         mat = [[(rng.randrange(-8, 40) / 4.0 if dy else rng.randrange(-3, 12)) for _ in range(m)] for _ in range(n)]
-        return {"kind": "assign", "matrix": mat}
+        return {"kind": "assign", "matrix": mat, "seq_as": rng.choice(["list", "tuple"])}
     n = rng.randrange(2, 7 if tier == "quick" else 10)
     simple = rng.random() < 0.5
     for _ in range(50):
@@ -234,7 +234,7 @@ def exec_assign(case, o):
     key = dict(target="solve_assignment")
     try:
         with budget.steps(STEP_LIMIT):
-            res = m.solve_assignment([list(r) for r in mat])
+            res = m.solve_assignment(tuple(tuple(r) for r in mat) if case.get("seq_as") == "tuple" else [list(r) for r in mat])
     except budget.StepBudgetExceeded:
         o.violate(PROP, "no_return", f"solve_assignment did not return within {STEP_LIMIT} events", **key)
         return
